@@ -11,12 +11,12 @@ import (
 
 // P-loopexit: two slips that turn a loop over all elements into something else.
 //
-//  (a) the body of a loop ends, on every path, in a return or break, and contains no
-//      continue: only the first element is ever examined (a search that answers for
-//      the first candidate instead of for any);
-//  (b) an unlabelled break is the last thing a case clause does inside a loop
-//      (`default: ... if done { break }`): it leaves the switch, which ends there
-//      anyway, not the loop it was meant to stop.
+//	(a) the body of a loop ends, on every path, in a return or break, and contains no
+//	    continue: only the first element is ever examined (a search that answers for
+//	    the first candidate instead of for any);
+//	(b) an unlabelled break is the last thing a case clause does inside a loop
+//	    (`default: ... if done { break }`): it leaves the switch, which ends there
+//	    anyway, not the loop it was meant to stop.
 type loopExitSite struct {
 	pos  token.Pos
 	fn   string
